@@ -207,8 +207,10 @@ def check(prop: str, tier: str, seed: int, runs: int | None, budget_s: float | N
     sample_every = max(1, block // 2)
     per_block_timeout = cfg.get("block_timeout_s", 600)
 
+    stop = {"bad": 0}
+
     def do_block(b):
-        if time.time() > deadline:
+        if time.time() > deadline or stop["bad"] >= 60:
             return None
         hs = core.hash_seed_for(seed, key, b, n_hash)
         start = b * block
@@ -231,6 +233,7 @@ def check(prop: str, tier: str, seed: int, runs: int | None, budget_s: float | N
                  "key": {"class": "process_crash"}}
             recs = [{"r": r, "digest": "crash", "nt": False, "faults": {}, "probes": {}, "steps": 0, "simt": 0.0, "viol": [v], "case": case}]
             return hs, recs
+        stop["bad"] += sum(1 for r in recs if r.get("viol"))
         return hs, recs
 
     with cf.ThreadPoolExecutor(max_workers=workers) as ex:
@@ -271,7 +274,8 @@ def check(prop: str, tier: str, seed: int, runs: int | None, budget_s: float | N
                         agg["nt_sample"] = s
                 for v in r["viol"]:
                     if v["prop"] == prop:
-                        agg["viol"].append({"r": r["r"], "hash_seed": hs, "case": r["case"], "v": v})
+                        agg["viol"].append({"r": r["r"], "hash_seed": hs, "case": r["case"], "v": v, "tier": tier,
+                                            "block_start": (r["r"] // block) * block})
 
     if agg["harness"]:
         h = agg["harness"][0]
@@ -401,6 +405,27 @@ def report_violation(prop: str, seed: int, it: dict, extra_env: dict, findings: 
         digs.append((ok, recs[0].get("digest")))
     rep["replay_verified"] = digs[0][0] and digs[1][0] and digs[0][1] == digs[1][1]
     rep["expect"]["digest"] = digs[0][1]
+    if not rep["replay_verified"] and "block_start" in it:
+        # the case alone does not reproduce in a fresh interpreter: the violation may depend on state that earlier runs of the
+        # same worker left behind (a module-level cache, say).  Replay the block prefix start..run instead.
+        n = it["r"] - it["block_start"] + 1
+        hits = []
+        for _ in range(2):
+            try:
+                recs = run_worker(["run", prop, str(seed), it["tier"], str(it["block_start"]), str(n), "0"], env, 900)
+                last = [r for r in recs if r.get("r") == it["r"]]
+                hits.append(bool(last) and any(core.canon(v["key"]) == core.canon(it["v"]["key"]) and v["prop"] == prop
+                                               for v in last[0].get("viol", [])))
+            except HarnessError:
+                hits.append(False)
+        if all(hits):
+            rep["mode"] = "block_prefix"
+            rep["block_prefix"] = {"seed": seed, "tier": it["tier"], "start": it["block_start"], "count": n}
+            rep["case"] = it["case"]
+            rep["expect"] = {"class": it["v"]["class"], "key": it["v"]["key"], "detail": it["v"]["detail"]}
+            rep["replay_verified"] = True
+            rep["note"] = ("the minimised case alone does not fail in a fresh interpreter; the violation needs the state left by the "
+                           "preceding runs of its block, so the replay re-executes that prefix (history-dependent defect)")
     json.dump(rep, open(path, "w"), indent=1, default=core._default)
     if not rep["replay_verified"]:
         log(f"  WARNING: replay of {path} was not bit-identical twice: {digs}")
@@ -417,6 +442,18 @@ def replay(path: str) -> int:
     mod = core.prop_module(prop)
     os.makedirs(SCRATCH, exist_ok=True)
     extra_env = mod.prepare(SCRATCH) if hasattr(mod, "prepare") else {}
+    if rep.get("mode") == "block_prefix":
+        bp = rep["block_prefix"]
+        env = worker_env(rep.get("hash_seed", 0), mod.case_env(rep["case"], extra_env) if hasattr(mod, "case_env") else extra_env)
+        recs = run_worker(["run", prop, str(bp["seed"]), bp["tier"], str(bp["start"]), str(bp["count"]), "0"], env, 900)
+        last = [r for r in recs if r.get("r") == bp["start"] + bp["count"] - 1]
+        for v in (last[0].get("viol", []) if last else []):
+            if v["prop"] == prop:
+                log(f"VIOLATION property={prop} replay={path}")
+                log(f"  class={v['class']} detail={v['detail']} (after replaying the {bp['count'] - 1} preceding runs of the block)")
+                return 1
+        log("replay (block prefix): no violation on this tree")
+        return 0
     try:
         recs = exec_case_file(prop, path, rep.get("hash_seed", 0), extra_env)
     except HarnessError as e:
